@@ -430,11 +430,14 @@ class SymReal(_ArithMixin, float):
         raise ProxyLeak("int() of a real proxy through the builtin")
 
 
-class SymInt(_ArithMixin, int):
-    def __new__(cls, t):
-        o = int.__new__(cls, 0)
-        o.t = t
-        return o
+class SymInt(_ArithMixin):
+    """NOT a subclass of int: CPython reads the raw value of int subclasses without calling __index__ (range, list
+    indexing, slicing, struct, ...), which would silently use a placeholder.  As a plain object every such use goes
+    through __index__ / __int__ below and is a checker error; isinstance(x, int) inside repository modules is answered
+    by the int shim's metaclass."""
+
+    def __init__(self, t):
+        self.t = t
 
     for _n in ("__lshift__", "__rlshift__", "__rshift__", "__rrshift__", "__and__", "__rand__", "__or__", "__ror__", "__xor__", "__rxor__",
                "__invert__", "__divmod__", "__rdivmod__", "__rfloordiv__", "__rmod__", "bit_length", "to_bytes"):
